@@ -416,7 +416,14 @@ func (s *Server) serveHTTP(w http.ResponseWriter, r *http.Request) (int, error) 
 	}
 
 	// look up the virtualhost; if no match, serve error
-	vhost, pathPrefix := s.vhosts.Match(hostname + r.URL.Path)
+	// (the key is "host/path": the path of a request-target in asterisk-form
+	// ("*") or authority-form ("") has no leading slash and must not run
+	// into the host name)
+	reqPath := r.URL.Path
+	if !strings.HasPrefix(reqPath, "/") {
+		reqPath = "/" + reqPath
+	}
+	vhost, pathPrefix := s.vhosts.Match(hostname + reqPath)
 	c := context.WithValue(r.Context(), casket.CtxKey("path_prefix"), pathPrefix)
 	r = r.WithContext(c)
 
